@@ -635,7 +635,6 @@ pub fn plus_operation<'a>(
           ));
         }
         for controller in nv.iter() {
-          println!("controller: {}", controller);
           values.append(&mut plus_operation(cddl, target, controller)?)
         }
       }
@@ -691,7 +690,6 @@ pub fn plus_operation<'a>(
           ));
         }
         for controller in nv.iter() {
-          println!("controller: {}", controller);
           values.append(&mut plus_operation(cddl, target, controller)?)
         }
       }
@@ -734,7 +732,6 @@ pub fn plus_operation<'a>(
           ));
         }
         for controller in nv.iter() {
-          println!("controller: {}", controller);
           values.append(&mut plus_operation(cddl, target, controller)?)
         }
       }
